@@ -53,6 +53,7 @@ def fn(key):
                 "se23err": lambda: ml.derive_se23_error()["se23_error"],
                 "se23att": lambda: ml.derive_outerloop_control()["se23_attitude_control"],
                 "se23pos": lambda: ml.derive_outerloop_control()["se23_position_control"],
+                "alloc": lambda: m.derive_control_allocation()["f_alloc"],
             }
             _f[key] = table[key]()
     return _f[key]
